@@ -110,6 +110,7 @@ ExpV(p, x)  == PowV(p, EVal(p), x)
 
 -----------------------------------------------------------------------------
 (* Tokens <<op, a, b>> and their semantics on a stack of field values.       *)
+(* (Derivative, Integral, Sum, Product, factorial .. are named functions.)    *)
 (*   <<"sym", i, 0>>   symbol i (value pt[i])     <<"int", n, 0>>  integer n  *)
 (*   <<"rat", n, d>>   rational n/d               <<"cst", id, 0>> named constant *)
 (*   <<"add", n, 0>>   n-ary sum                  <<"mul", n, 0>>  n-ary product *)
@@ -177,7 +178,8 @@ LeafTok == [
   n2   |-> <<"int", 2, 0>>,  n3  |-> <<"int", 3, 0>>,  n10 |-> <<"int", 10, 0>>,
   nm1  |-> <<"int", -1, 0>>, nm2 |-> <<"int", -2, 0>>,
   h    |-> <<"rat", 1, 2>>,  mt  |-> <<"rat", -2, 3>>, q34 |-> <<"rat", 3, 4>>,
-  pi   |-> <<"cst", 1, 0>>
+  pi   |-> <<"cst", 1, 0>>,
+  xt   |-> <<"sym", 5, 0>>       \* a function of the variable t, x(t): to the model one more independent value
 ]
 OpTok == [
   add2 |-> <<"add", 2, 0>>,  add3 |-> <<"add", 3, 0>>,
@@ -187,7 +189,11 @@ OpTok == [
   sqrt |-> <<"sqrt", 0, 0>>, cbrt |-> <<"powr", 1, 3>>, p32 |-> <<"powr", 3, 2>>, pm32 |-> <<"powr", -3, 2>>,
   pm12 |-> <<"powr", -1, 2>>,
   pow  |-> <<"pow", 0, 0>>,  exp  |-> <<"exp", 0, 0>>,
-  sin  |-> <<"fn", 16, 1>>,  log  |-> <<"fn", 17, 1>>, f2  |-> <<"fn", 18, 2>>, g1 |-> <<"fn", 19, 1>>
+  sin  |-> <<"fn", 16, 1>>,  log  |-> <<"fn", 17, 1>>, f2  |-> <<"fn", 18, 2>>, g1 |-> <<"fn", 19, 1>>,
+  \* operator nodes (uninterpreted, congruent): d/dt, integral dt, sum and product over k = 1..n, factorial,
+  \* sum and product over the index i of indexed symbols
+  ddt  |-> <<"fn", 20, 1>>,  int  |-> <<"fn", 21, 1>>, sumk |-> <<"fn", 22, 1>>, prodk |-> <<"fn", 23, 1>>,
+  fact |-> <<"fn", 24, 1>>,  isum |-> <<"fn", 25, 1>>, iprod |-> <<"fn", 26, 1>>
 ]
 Tok(name) == IF name \in DOMAIN LeafTok THEN LeafTok[name] ELSE OpTok[name]
 ASSUME LeafNames \subseteq DOMAIN LeafTok /\ OpNames \subseteq DOMAIN OpTok
@@ -197,7 +203,7 @@ Toks(names) == [i \in DOMAIN names |-> Tok(names[i])]
 -----------------------------------------------------------------------------
 (* The machine: stack holds the values at the sanity point.                  *)
 Top(k) == stack[Len(stack) - k]
-Point == PointOf(P, PointSeed, 1, 4)
+Point == PointOf(P, PointSeed, 1, 5)
 
 Init == stack = <<>> /\ prog = <<>>
 
@@ -221,8 +227,9 @@ PowR == \E o \in OpNames \cap {"cbrt", "p32", "pm32", "pm12"} : Apply(o)
 Sqrt == "sqrt" \in OpNames /\ Apply("sqrt")
 PowG == "pow" \in OpNames /\ Apply("pow")
 Func == \E o \in OpNames \cap {"exp", "sin", "log", "f2", "g1"} : Apply(o)
+Oper == \E o \in OpNames \cap {"ddt", "int", "sumk", "prodk", "fact", "isum", "iprod"} : Apply(o)
 
-Next == Leaf \/ AddN \/ MulN \/ Neg \/ Div \/ PowI \/ PowR \/ Sqrt \/ PowG \/ Func
+Next == Leaf \/ AddN \/ MulN \/ Neg \/ Div \/ PowI \/ PowR \/ Sqrt \/ PowG \/ Func \/ Oper
 
 Spec == Init /\ [][Next]_vars
 
